@@ -74,6 +74,7 @@ type shared struct {
 	assertsUnsat int64
 	assertSites map[string]int64
 	violSigs map[string]int
+	fnInfos  sync.Map
 }
 
 func (sh *shared) harnessIntercept(fn *ssa.Function) extFn {
